@@ -121,8 +121,7 @@ def run_vm(ir, job, out, tier, seed, dumpdir=None):
     cmd = [SXVM, ir, "--out", out, "--seed", str(seed), "--per-sig", str(job.get("per_sig", 2000)), "--samples", str(job.get("samples", 6))]
     for k, v in sorted(job["params"].items()):
         cmd += ["-P", "%s=%d" % (k, v)]
-    if "max_time" in job:
-        cmd += ["--max-time", str(job["max_time"])]
+    cmd += ["--max-time", str(job.get("max_time", 300 if tier == "quick" else 2400))]
     if "max_steps" in job:
         cmd += ["--max-steps", str(job["max_steps"])]
     cmd += job.get("vmopts", [])
@@ -190,8 +189,9 @@ def confirm(v, nat):
         return False
     if k == "ASSERT":
         return v["label"] in nat["fails"]
-    if k in MEMFAULTS:
-        return bool(nat["sanitizer"] and nat["sanitizer"].startswith("asan")) or nat["rc"] in (-11, 139, -6, 134)
+    if k in MEMFAULTS or k == "UNINIT-USE":
+        # the native run shows a memory fault of some class (ASan or UBSan report, or a crash)
+        return bool(nat["sanitizer"]) or nat["rc"] in (-11, 139, -6, 134, -4, 132)
     if k in UBFAULTS:
         return bool(nat["sanitizer"])
     if k in EXITFAULTS:
@@ -349,9 +349,6 @@ class Check:
                    "native": {"sanitizer": nat["sanitizer"], "fails": nat["fails"][:5], "rc": nat["rc"], "san_func": nat["san_func"]}}
             if v["kind"] == "ASSERT" and self.label_prefix and not v["label"].startswith(self.label_prefix) and v["label"] != "witness":
                 continue            # belongs to a sibling property sharing this harness
-            if v["kind"] == "UNINIT-USE":
-                unconfirmed.append(rec)
-                continue
             if not confirm(v, nat):
                 unconfirmed.append(rec)
                 continue
